@@ -73,11 +73,11 @@ def alg_value(rng, cubic_ok=True):
 
 
 def is_alg(tok):
-    return tok[0] in "ra"
+    return tok[0] in "ran"
 
 
 def alg_degree(tok):
-    return tok.split(":")[1].count(",")
+    return tok.split(":")[2 if tok[0] == "n" else 1].count(",")
 
 
 # ---------------------------------------------------------------------------------------------- polynomials
@@ -470,6 +470,99 @@ def reducible_defining(rng):
     return ev(rng, n, p, [tok])
 
 
+def ppow(p, k, n):
+    r = pconst(1, n)
+    for _ in range(k):
+        r = pmul(r, p)
+    return r
+
+
+def high_degree(rng):
+    """exact zeros and near-zeros of HIGH degree: x^n - c^(n/2) at sqrt c (n = 12..40), (x^2-2)^k * q(x), products of
+    large powers in two / three variables; sign, the six conditions and the value are checked"""
+    kind = rng.random()
+    if kind < 0.4:
+        c = rng.choice([2, 2, 3, 5])
+        nn = rng.randint(12, 40)
+        n = 1
+        x = pvar(0, n)
+        s0 = rng.randrange(2)
+        if nn % 2 == 0:
+            zero = padd(pvar(0, n, nn), pconst(c ** (nn // 2), n), -1)
+        else:
+            zero = padd(pvar(0, n, nn), pmul(pconst(c ** ((nn - 1) // 2), n), x), -1)
+        toks = ["r:%d,0,1:%d" % (-c, s0)]
+    elif kind < 0.6:
+        n = 1
+        x = pvar(0, n)
+        k = rng.randint(2, 7)
+        zero = pmul(ppow(padd(pmul(x, x), pconst(2, n), -1), k, n), rand_poly(rng, n, 2, 2, 3) or pconst(1, n))
+        toks = ["r:-2,0,1:%d" % rng.randrange(2)]
+    elif kind < 0.85:
+        # x^a y^b - 2^(a/2) 3^(b/2) at (+-sqrt2, +-sqrt3), a, b even
+        n = 2
+        a, b = 2 * rng.randint(3, 10), 2 * rng.randint(2, 8)
+        zero = padd(pmul(pvar(0, n, a), pvar(1, n, b)), pconst(2 ** (a // 2) * 3 ** (b // 2), n), -1)
+        toks = ["r:-2,0,1:%d" % rng.randrange(2), "r:-3,0,1:%d" % rng.randrange(2)]
+    else:
+        # (x y)^k - z^k at sqrt2, sqrt3, sqrt6 (k even keeps all sign choices zero)
+        n = 3
+        k = 2 * rng.randint(3, 7)
+        zero = padd(pmul(pvar(0, n, k), pvar(1, n, k)), pvar(2, n, k), -1)
+        toks = ["r:-2,0,1:%d" % rng.randrange(2), "r:-3,0,1:%d" % rng.randrange(2), "r:-6,0,1:%d" % rng.randrange(2)]
+    m = rng.random()
+    if m < 0.5:
+        p = zero
+    elif m < 0.75:
+        p = padd(zero, pconst(rng.choice([1, -1]), n))                      # off by one unit in a huge magnitude
+    elif m < 0.9:
+        p = padd(pmul(zero, pconst(2 ** rng.choice([10, 21, 30]), n)), pconst(rng.choice([1, -1]), n))
+    else:
+        p = pmul(zero, pvar(0, n))
+    return ev(rng, n, p, toks)
+
+
+SCALED_BASE = [("-2,0,1", "1/0", "2/0"), ("-2,0,1", "-2/0", "-1/0"), ("-3,0,1", "1/0", "2/0"), ("-2,0,0,1", "1/0", "2/0"),
+               ("-1,-1,1", "1/0", "2/0"), ("-5,0,1", "2/0", "3/0"), ("-2,0,1", "5/2", "3/1"), ("1,-3,0,1", "1/0", "2/0")]
+
+
+def scaled_defining(rng):
+    """values whose defining polynomial has a NEGATIVE leading coefficient and/or is not primitive (k*f, k = -1, -2,
+    2, -3; token n:k:..., built by the harness), as top and as lower variable; polynomials of degree >= deg f in that
+    variable (so that a reduction modulo f would need the sign of lc(f)^k), zeros, random ones"""
+    cs, lo, hi = rng.choice(SCALED_BASE)
+    k = rng.choice([-1, -1, -1, -2, 2, -3])
+    tok = "n:%d:%s:%s:%s" % (k, cs, lo, hi)
+    n = rng.choice([1, 2, 2, 3])
+    toks = [tok]
+    for _ in range(1, n):
+        r = rng.random()
+        toks.append(alg_value(rng, cubic_ok=False) if r < 0.5 else (rat_value(rng) if r < 0.85 else
+                    "n:%d:-3,0,1:1/0:2/0" % rng.choice([-1, -2])))
+    x = pvar(0, n)
+    d = cs.count(",")
+    kind = rng.random()
+    if kind < 0.3:
+        p = padd(pvar(0, n, rng.randint(d, d + 3)), pconst(rng.randint(1, 6), n), -1)          # x^e - c
+    elif kind < 0.55 and n > 1:
+        p = padd(pmul(pvar(1, n), pvar(0, n, rng.randint(d, d + 2))), pconst(rng.randint(1, 7), n), -1)   # y x^e - c
+    elif kind < 0.7:
+        base = {"-2,0,1": padd(pmul(x, x), pconst(2, n), -1), "-3,0,1": padd(pmul(x, x), pconst(3, n), -1),
+                "-5,0,1": padd(pmul(x, x), pconst(5, n), -1)}.get(cs)
+        p = pmul(base, rand_poly(rng, n, 2, 1, 3) or pconst(1, n)) if base else rand_poly(rng, n, 3, 3)
+    else:
+        p = padd(rand_poly(rng, n, rng.randint(1, 3), 2), pmul(pconst(rng.choice([1, -1, 2]), n), pvar(0, n, rng.randint(d, d + 2))))
+    if n > 1 and rng.random() < 0.5:
+        j = rng.randrange(1, n)
+        toks[0], toks[j] = toks[j], toks[0]
+        def sw(e):
+            e = list(e)
+            e[0], e[j] = e[j], e[0]
+            return tuple(e)
+        p = {sw(e): c_ for e, c_ in p.items()}
+    return ev(rng, n, p, toks)
+
+
 def mixed(rng):
     n = rng.choice([1, 2, 2, 3, 3])
     nalg = rng.choice([0, 1, 1, 2, 2, 3]) if n == 3 else rng.randint(0, n)
@@ -608,7 +701,7 @@ def sc_cases():
 
 CLASSES = [("sqrt", sqrt_family, 14), ("tiny", tiny_linear, 6), ("scaled", scaled_eliminant, 9), ("scaledd", scaled_directed, 4), ("mixed", mixed, 30),
            ("lckill", lc_killer, 10), ("cbrt", cube_roots, 4), ("secret", secretly_rational, 8), ("er", er_case, 12),
-           ("rlb", rlb_case, 4), ("va", va_case, 10), ("ratalg", rational_as_algebraic, 10), ("reducible", reducible_defining, 10)]
+           ("rlb", rlb_case, 4), ("va", va_case, 10), ("ratalg", rational_as_algebraic, 10), ("reducible", reducible_defining, 10), ("highdeg", high_degree, 8), ("negpoly", scaled_defining, 8)]
 
 
 def generate(rng, tier):
